@@ -29,7 +29,7 @@ PID = "C16"
 INVARIANTS = ["TypeOK", "StrongExactly", "NoHashWhileMissing", "HashWhenComplete", "FuzzyIgnoresProducedContent",
               "FuzzyFollowsProducer", "FuzzyExactly", "BaseComplete", "SiblingExactly"]
 ACTIONS = ["ChangeExecutable", "ChangeLiteral", "ChangeOwnContent", "ChangeOwnMethod", "ChangeProducedContent",
-           "ChangeUpMethod", "ChangeImage", "LiteralViaVariable", "RenameOwnFile", "RenameProducedFile",
+           "ChangeUpMethod", "ChangeImage", "LiteralViaVariable", "ExecutableViaVariable", "RenameOwnFile", "RenameProducedFile",
            "RespellReference", "ChangeBackendOnly", "ChangeResources", "ChangeEnvironment", "MoveInstance",
            "RenameComponents", "RenameStages", "ShiftStages", "ChangeTime", "Replicate", "Identity",
            "ChangeSiblingExecutable", "ChangeSiblingLiteral",
@@ -119,6 +119,7 @@ def render(w, appdir):
     names, sibname = names_of(w)
     n = w["n"]
     comps, envs = [], {}
+    gvars, pvars = {}, {}          # global variables of the default platform / of the platform "plat"
     if w["where"]["shift"]:
         comps.append({"name": "filler", "stage": 0, "command": {"executable": "true", "arguments": ""}})
     uses_app = False
@@ -144,8 +145,19 @@ def render(w, appdir):
             refs.append(r)
             if up["method"] in ("ref", "output"):
                 args.append(r)
+        exe = EXE[c["exe"]]
+        if c["exeVia"] == "comp":
+            variables["tool"] = exe
+            exe = "%(tool)s"
+        elif c["exeVia"] == "global":
+            gvars["tool%d" % i] = exe
+            exe = "%%(tool%d)s" % i
+        elif c["exeVia"] == "platform":       # the default platform names another program, the active platform the right one
+            gvars["tool%d" % i] = "false"
+            pvars["tool%d" % i] = exe
+            exe = "%%(tool%d)s" % i
         comp = {"name": names[i - 1], "stage": stage_of(w, i),
-                "command": {"executable": EXE[c["exe"]], "arguments": " ".join(args), "environment": "env%d" % i},
+                "command": {"executable": exe, "arguments": " ".join(args), "environment": "env%d" % i},
                 "references": refs, "resourceRequest": {"numberThreads": c["res"]}}
         envs["env%d" % i] = {"VERIF_VALUE": c["envvar"]}
         if variables:
@@ -167,6 +179,11 @@ def render(w, appdir):
     nstages = max(c["stage"] for c in comps) + 1
     doc = {"components": comps, "environments": {"default": envs},
            "variables": {"default": {"stages": {k: {"stage-name": "%s%d" % (w["where"]["stageNames"], k)} for k in range(nstages)}}}}
+    if gvars:
+        doc["variables"]["default"]["global"] = gvars
+    if pvars:
+        doc["variables"]["plat"] = {"global": pvars}
+        doc["platforms"] = ["default", "plat"]
     if uses_app:
         doc["application-dependencies"] = {"default": [appdir]}
     return doc
@@ -228,7 +245,8 @@ class Built:
                 with open(p, "w") as f:
                     f.write(text)
         self.doc = render(w, appdir)
-        self.exp = realenv.experiment_from_flowir(self.doc, loc, inputs=inputs, extra_files=extra, validate=True)
+        platform = "plat" if any(c["exeVia"] == "platform" for c in w["c"][:n]) else None
+        self.exp = realenv.experiment_from_flowir(self.doc, loc, inputs=inputs, extra_files=extra, validate=True, platform=platform)
         inst = self.exp.instanceDirectory.location
         t = 1_000_000_000 + 86400 * 365 * w["where"]["time"]
         names, sibname = names_of(w)
@@ -298,6 +316,9 @@ def aspect_name(pair):
         return "%s=%s->%s" % (k, pair["a"]["c"][at][f]["method"], pair["b"]["c"][at][f]["method"])
     if k in ("ownContent", "upContent") and pair["a"]["focus"] == "content":
         return "%s->%s" % (k, pair["b"]["c"][0]["own" if k == "ownContent" else "up"]["content"])
+    if k == "exeVia":
+        at = pair["asp"]["at"] - 1
+        return "exeVia=%s->%s" % (pair["a"]["c"][at]["exeVia"], pair["b"]["c"][at]["exeVia"])
     if k == "image":
         at = pair["asp"]["at"] - 1
         return "image=%s/%s->%s/%s" % (pair["a"]["c"][at]["backend"], pair["a"]["c"][at]["image"],
@@ -318,7 +339,7 @@ def position(pair, i):
         pos = "self"
     else:
         pos = "upstream%d" % (at - i) if at > i else "downstream"
-    if pair["a"]["sib"]["present"] or pair["a"]["focus"] == "content":   # the class of the input includes the naming / content relation
+    if pair["a"]["sib"]["present"] or pair["a"]["focus"] in ("content", "exe"):   # the class of the input includes the naming / content relation
         pos += "@" + base_class(pair["a"], i)
     return pos
 
@@ -380,6 +401,8 @@ def compare_sibling(chk, pair, ha, hb, replay):
 
 def base_class(w, i):
     c = w["c"][i - 1]
+    if w["focus"] == "exe":
+        return "executable-via(%s)" % ",".join(c["exeVia"] for c in w["c"][:w["n"]])
     if w["focus"] == "content":
         c1 = w["c"][0]
         return "contents(own=%s,produced=%s,%s)" % (c1["own"]["content"], c1["up"]["content"],
@@ -513,7 +536,7 @@ def run(tier):
             raise MachineryError("action %s of Memo.tla never taken (vacuous run): %s" % (act, r["coverage"]))
     chk.add_tlc(r)
     for witness in ("NoAspectMatters", "EveryAspectMatters", "FuzzyIsStrong", "NeverUndefined"):
-        cw = write_cfg(os.path.join(gen, "Memo_witness_%s.cfg" % tier), t, False, [witness])
+        cw = write_cfg(os.path.join(gen, "Memo_witness_%s_%s.cfg" % (witness, tier)), t, False, [witness])
         rw = tlc.run_tlc("Memo", cw, workers=4, timeout=600, expect_violation=True)
         if rw["violated"] != witness:
             raise MachineryError("vacuity guard: %s is not violated by the family of Memo.tla (%s)" % (witness, rw["violated"]))
